@@ -20,15 +20,36 @@ MAX_ROUNDS = 3
 KEEP = {"deflate_compression_level_range", "bzip2_compression_level_range"}
 
 
+_KNOWN = None
+
+
 def known_names():
-    src = ""
+    """identifiers the rules can address a function by: those occurring in string literals of the rule/engine sources that look like
+    anchors (a path or a regex: contain `::`, `$`, `^`, `|`, or are at most three words) -- not the prose of comments, docstrings and
+    messages, which used to pin down every helper that happened to share an English word with them"""
+    global _KNOWN
+    if _KNOWN is not None:
+        return _KNOWN
+    import io
+    import tokenize
+    names = set()
     for p in glob.glob(os.path.join(HERE, "rules", "*.py")) + glob.glob(os.path.join(HERE, "engine", "*.py")):
         if p.endswith("inline.py"):
             continue
         with open(p) as fh:
-            # identifiers in comments are prose, not anchors
-            src += "\n".join(re.sub(r"(^|\s)#[^\"']*$", "", ln) for ln in fh.read().splitlines()) + "\n"
-    return set(re.findall(r"[A-Za-z_][A-Za-z0-9_]*", src)) | KEEP
+            src = fh.read()
+        prev = None
+        for tok in tokenize.generate_tokens(io.StringIO(src).readline):
+            if tok.type == tokenize.STRING:
+                s = tok.string
+                doc = prev in (None, tokenize.NEWLINE, tokenize.INDENT, tokenize.DEDENT, tokenize.NL) and re.match(r'^[rbuRBU]*("""|\'\'\')', s)
+                body = re.sub(r'^[rbuRBUfF]*("""|\'\'\'|"|\')|("""|\'\'\'|"|\')$', "", s)
+                if not doc and (re.search(r"::|\$|\^|\|", body) or len(body.split()) <= 3):
+                    names |= set(re.findall(r"[A-Za-z_][A-Za-z0-9_]*", body))
+            if tok.type not in (tokenize.COMMENT,):
+                prev = tok.type
+    _KNOWN = names | KEEP
+    return _KNOWN
 
 
 def _shift(node, loff, boff):
@@ -169,6 +190,9 @@ COMBINATORS = [
     (r"^std::option::Option::<T>::and_then$", "Option", "Option", {"Some": ("closure", None, True), "None": ("pass",)}),
     (r"^std::result::Result::<T, E>::unwrap_or_else$", "Result", None, {"Ok": ("payload",), "Err": ("closure", None, True)}),
     (r"^std::option::Option::<T>::unwrap_or_else$", "Option", None, {"Some": ("payload",), "None": ("closure", None, False)}),
+    # x.map_or(default, |p| ..): the closure is the third argument, the None arm yields the (already evaluated) default
+    (r"^std::option::Option::<T>::map_or$", "Option", None, {"Some": ("closure", None, True), "None": ("argval", 1)}, 2),
+    (r"^std::result::Result::<T, E>::map_or$", "Result", None, {"Ok": ("closure", None, True), "Err": ("argval", 1)}, 2),
 ]
 FAMILY = {"Result": ("std::result::Result", [[0, "Ok"], [1, "Err"]]), "Option": ("std::option::Option", [[0, "None"], [1, "Some"]])}
 
@@ -239,6 +263,9 @@ def _desugar_one(raw, bi, spec, closure_raw):
         elif act[0] == "payload":
             raw["blocks"][ab]["stmts"].append({"k": "assign", "place": dest, "rv": {"k": "use", "op": {"k": "move", "place": {"l": pl, "p": [], "ty": "?"}}}, "span": span, "expn": None})
             raw["blocks"][ab]["term"] = {"k": "goto", "target": target, "span": span, "expn": None}
+        elif act[0] == "argval":
+            raw["blocks"][ab]["stmts"].append({"k": "assign", "place": dest, "rv": {"k": "use", "op": t["args"][act[1]]}, "span": span, "expn": None})
+            raw["blocks"][ab]["term"] = {"k": "goto", "target": target, "span": span, "expn": None}
         elif act[0] == "rewrap":
             raw["blocks"][ab]["stmts"].append({"k": "assign", "place": dest, "rv": _agg(adt_out, act[1], [{"k": "move", "place": {"l": pl, "p": [], "ty": "?"}}]), "span": span, "expn": None})
             raw["blocks"][ab]["term"] = {"k": "goto", "target": target, "span": span, "expn": None}
@@ -247,7 +274,7 @@ def _desugar_one(raw, bi, spec, closure_raw):
             rty = closure_raw["locals"][0]["ty"]
             r = new_local(rty)
             wb = new_block()
-            args = [t["args"][1]]
+            args = [t["args"][spec[4] if len(spec) > 4 else 1]]
             if takes and has_payload and closure_raw["arg_count"] >= 2:
                 args.append({"k": "move", "place": {"l": pl, "p": [], "ty": "?"}})
             if len(args) != closure_raw["arg_count"]:
@@ -273,12 +300,15 @@ def desugar_combinators(fns_by_path, f):
         todo = []
         for bi, b in enumerate(cur["blocks"]):
             t = b["term"]
-            if b.get("cleanup") or not t or t["k"] != "call" or len(t.get("args") or []) != 2:
+            if b.get("cleanup") or not t or t["k"] != "call":
                 continue
             spec = next((c for c in COMBINATORS if re.search(c[0], t.get("callee") or "")), None)
             if spec is None:
                 continue
-            a1 = t["args"][1]
+            ci = spec[4] if len(spec) > 4 else 1
+            if len(t.get("args") or []) != ci + 1:
+                continue
+            a1 = t["args"][ci]
             if a1["k"] == "const" or a1["place"]["p"]:
                 continue
             cpath = _closure_of(cur, a1["place"]["l"])
